@@ -505,6 +505,66 @@ def finalizer_scenarios(log):
         h.a = None
         del h
         gc.collect()
+    note("default-init-reentrant-assign")
+    # first read of a trait whose post_setattr hook (documented TraitType API) re-assigns / deletes the attribute
+    # that is being default-initialised: the uniquely referenced dynamic default must stay alive until the caller of
+    # getattr releases it
+    reading = [False]
+
+    class RawV(object):
+        def __init__(self):
+            self.data = [1, 2, 3]
+
+        def __del__(self):
+            if reading[0]:
+                died[0] += 1
+
+    died = [0]
+
+    for mode in ("setq", "set", "dictpop", "none"):
+        class Canon(TraitType):
+            def validate(self, obj, name, value):
+                return value
+
+            def post_setattr(self, obj, name, value, mode=mode):
+                if isinstance(value, RawV):
+                    if mode == "setq":
+                        obj.trait_setq(**{name: "canonical"})
+                    elif mode == "set":
+                        setattr(obj, name, "canonical")
+                    elif mode == "dictpop":
+                        obj.__dict__.pop(name, None)
+                    gc.collect()
+
+        class RH(HasTraits):
+            x = Canon()
+
+            def _x_default(self):
+                return RawV()
+        for _ in range(5):
+            h = RH()
+            died[0] = 0
+            reading[0] = True
+            try:
+                first = h.x
+            except Exception:
+                first = None
+            reading[0] = False
+            if first is not None and died[0]:
+                sys.stderr.write("FAIL: the dynamic default was deallocated while the attribute read that returned it "
+                                 "was still running (getattr returned freed memory), mode %s\n" % mode)
+                sys.stderr.flush()
+                os._exit(70)
+            if first is not None:
+                first.data.append(len(repr(first)))
+            del first
+            try:
+                h.x
+                del h.x
+                h.x
+            except Exception:
+                pass
+            del h
     note("heap-check")
     junk = [FHolder(payload=i) for i in range(2000)]
     del junk
